@@ -157,6 +157,43 @@ func (s *Session) BigStalledCommit(r *RNG) string {
 	return res
 }
 
+// FillAndOverflow fills a bounded file completely and then overwrites pages in a transaction with the
+// overflow area enabled: the overwrite / free-list / mapping pages land beyond the limit.
+func (s *Session) FillAndOverflow(r *RNG) {
+	if s.F == nil || s.Tx != nil || s.Cfg.MaxPages == 0 {
+		return
+	}
+	fs := s.F.VerifSnapshot()
+	avail := int(fs.DataAvail)
+	if fs.DataEnd < fs.MaxPages {
+		avail += int(fs.MaxPages - fs.DataEnd)
+	}
+	if avail > 0 && avail < 400 {
+		if s.Begin(TxOpts{Overflow: true}) != "ok" {
+			return
+		}
+		if ids, res := s.Alloc(avail); res == "ok" {
+			for _, id := range ids {
+				s.Write(id, "full")
+			}
+		}
+		if s.Commit() != "ok" {
+			return
+		}
+	}
+	live := s.LiveIDs()
+	if len(live) == 0 || s.Begin(TxOpts{Overflow: true}) != "ok" {
+		return
+	}
+	for k := 0; k < 2+r.Intn(6); k++ {
+		s.Write(live[r.Intn(len(live))], "full")
+	}
+	s.Commit()
+	if fs := s.F.VerifSnapshot(); fs.MetaEnd > fs.DataEnd && fs.MetaEnd > fs.MaxPages {
+		s.mark("overflow-area-beyond-limit")
+	}
+}
+
 // FreeTail leaves a free region at the end of the data area of a bounded file.
 func (s *Session) FreeTail(r *RNG) {
 	if s.F == nil || s.Tx != nil {
@@ -414,6 +451,10 @@ func (s *Session) ResizeProbe(r *RNG) {
 	oldMax := before.MaxPages
 	var newMax uint64
 	kind := r.Intn(4)
+	ovfArea := before.MaxPages > 0 && before.MetaEnd > before.DataEnd
+	if ovfArea && r.Chance(70) {
+		kind = []int{0, 2, 3}[r.Intn(3)] // overflow area in use: raise or remove the limit (the data area may grow again)
+	}
 	switch {
 	case kind == 0 && oldMax > 0: // unbounded
 		newMax = 0
@@ -481,8 +522,26 @@ func (s *Session) ResizeProbe(r *RNG) {
 			s.fail("C14", "resize-avail", "grow %d -> %d pages: allocatable pages %d, expected %d", oldMax, newMax, got, want)
 		}
 	}
-	// the new limit is what a later plain open reports
-	if rr := s.Reopen(); rr == "ok" {
+	// the new limit is what a later plain open reports (half of the time: otherwise the session goes on
+	// with the instance that performed the update, whose allocator state was set up during that Open)
+	if ovfArea && label != "resize-shrink" {
+		s.mark("grow-with-overflow-area")
+	}
+	if r.Chance(50) || (ovfArea && label != "resize-shrink" && r.Chance(60)) {
+		s.mark("resize-continue-same-instance")
+		if ovfArea && label != "resize-shrink" && s.F != nil {
+			// allocate from the end of the file right away: the pages must lie behind the overflow area
+			if s.Begin(TxOpts{}) == "ok" {
+				if ids, res := s.Alloc(2 + r.Intn(6)); res == "ok" {
+					for _, id := range ids {
+						s.Write(id, "full")
+					}
+				}
+				s.Commit()
+				s.AccountCheck()
+			}
+		}
+	} else if rr := s.Reopen(); rr == "ok" {
 		re := s.F.VerifSnapshot()
 		if re.MaxPages != newMax {
 			s.fail("C14", "resize-persist", "plain reopen after %s reports %d max pages, expected %d", label, re.MaxPages, newMax)
